@@ -2901,7 +2901,6 @@ int32 parseCertificate(ssl_t *ssl, unsigned char **cp, unsigned char *end)
     uint32 certLen;
     int32 rc, i, certChainLen, parseLen = 0;
     void *pkiData = ssl->userPtr;
-    int32 pathLen;
 
     psTracePrintHsMessageParse(ssl, SSL_HS_CERTIFICATE);
 
@@ -3117,115 +3116,10 @@ RESUME_VALIDATE_CERTS:
         return MATRIXSSL_ERROR;
     }
     /*  Now walk the subject certs and convert any parse or authentication error
-        into an SSL alert.  The alerts SHOULD be read by the user callback
-        to determine whether they are fatal or not.  If no user callback,
-        the first alert will be considered fatal. */
-    cert = ssl->sec.cert;
-    pathLen = 0;
-    while (cert)
-    {
-        ++pathLen;
-        if (ssl->validateCertsOpts.max_verify_depth > 0)
-        {
-            int exceeded = 0;
-            psTraceIntInfo("max_verify_depth: %d\n", ssl->validateCertsOpts.max_verify_depth);
-            /*
-               A maximum verification depth has been specified in session opts.
-             */
-            if (pathLen > (ssl->validateCertsOpts.max_verify_depth))
-            {
-                exceeded = 1;
-            }
-            else if (pathLen == (ssl->validateCertsOpts.max_verify_depth))
-            {
-                /*
-                   We don't have the root in cert->next. So do the
-                   following: If the cert is _not_ self-signed, it must
-                   have a valid root cert as the issuer, since this
-                   is checked in matrixValidateCerts. Now take that root
-                   into account when checking the path length.
-                 */
-                if (memcmpct(&cert->subject, &cert->issuer,
-                        sizeof(cert->subject)))
-                {
-                    /* Root cert causes depth to be exceeded. */
-                    exceeded = 1;
-                }
-            }
-            if (exceeded)
-            {
-                /* Max depth exceeded. */
-                psTraceErrr("Error: max_verify_depth exceeded\n");
-                ssl->err = SSL_ALERT_UNKNOWN_CA;
-                cert->authStatus |= PS_CERT_AUTH_FAIL_PATH_LEN;
-                cert->authFailFlags |= PS_CERT_AUTH_FAIL_VERIFY_DEPTH_FLAG;
-            }
-        }
-        if (ssl->err != SSL_ALERT_NONE)
-        {
-            break; /* The first alert is the logical one to send */
-        }
-        switch (cert->authStatus)
-        {
-        case PS_CERT_AUTH_FAIL_SIG:
-            ssl->err = SSL_ALERT_BAD_CERTIFICATE;
-            break;
-        case PS_CERT_AUTH_FAIL_REVOKED:
-            ssl->err = SSL_ALERT_CERTIFICATE_REVOKED;
-            break;
-        case PS_CERT_AUTH_FAIL_AUTHKEY:
-        case PS_CERT_AUTH_FAIL_PATH_LEN:
-            ssl->err = SSL_ALERT_BAD_CERTIFICATE;
-            break;
-        case PS_CERT_AUTH_FAIL_EXTENSION:
-            /* The math and basic constraints matched.  This case is
-                for X.509 extension mayhem */
-            if (cert->authFailFlags & PS_CERT_AUTH_FAIL_DATE_FLAG)
-            {
-                ssl->err = SSL_ALERT_CERTIFICATE_EXPIRED;
-            }
-            else if (cert->authFailFlags & PS_CERT_AUTH_FAIL_SUBJECT_FLAG)
-            {
-                /* expectedName was giving to NewSession but couldn't
-                    match what the peer gave us */
-                ssl->err = SSL_ALERT_CERTIFICATE_UNKNOWN;
-            }
-            else if (cert->next != NULL)
-            {
-                /* This is an extension problem in the chain.
-                    Even if it's minor, we are shutting it down */
-                ssl->err = SSL_ALERT_BAD_CERTIFICATE;
-            }
-            else
-            {
-                /* This is the case where we did successfully find the
-                    correct CA to validate the cert and the math passed
-                    but the     extensions had a problem.  Give app a
-                    different message in this case */
-                ssl->err = SSL_ALERT_ILLEGAL_PARAMETER;
-            }
-            break;
-        case PS_CERT_AUTH_FAIL_BC:
-        case PS_CERT_AUTH_FAIL_DN:
-            /* These two are pre-math tests.  If this was a problem in the
-                middle of the chain it means the chain couldn't even
-                validate itself.  If it is at the end it means a matching
-                CA could not be found */
-            if (cert->next != NULL)
-            {
-                ssl->err = SSL_ALERT_BAD_CERTIFICATE;
-            }
-            else
-            {
-                ssl->err = SSL_ALERT_UNKNOWN_CA;
-            }
-            break;
-
-        default:
-            break;
-        }
-        cert = cert->next;
-    }
+        into an SSL alert: the most severe one of the chain.  The alert SHOULD
+        be read by the user callback to determine whether it is fatal or not.
+        If no user callback, it is fatal. */
+    matrixSslSetCertChainAlert(ssl, ssl->sec.cert);
 
 #  ifdef USE_SSL_INFORMATIONAL_TRACE
     /* The peer cert will be freed as soon as it is no longer needed,
@@ -3245,23 +3139,6 @@ RESUME_VALIDATE_CERTS:
     }
 #endif
 #  endif /* USE_SSL_INFORMATIONAL_TRACE */
-
-    /*  The last thing we want to check before passing the certificates to
-        the user callback is the case in which we don't have any
-        CA files loaded but we were passed a valid chain that was
-        terminated with a self-signed cert.  The fact that a CA on this
-        peer has not validated the chain should result in an UNKNOWN_CA alert
-
-        NOTE:  This case should only ever get hit if VALIDATE_KEY_MATERIAL
-        has been disabled in matrixssllib.h */
-
-    if (ssl->err == SSL_ALERT_NONE &&
-        (ssl->keys == NULL || ssl->keys->CAcerts == NULL))
-    {
-        ssl->err = SSL_ALERT_UNKNOWN_CA;
-        psTraceInfo("WARNING: Valid self-signed cert or cert chain but no local authentication\n");
-        rc = -1;  /* Force the check on existence of user callback */
-    }
 
     /*  matrixValidateCertsExt reports date, keyUsage and authority key
         identifier problems only through the authStatus of the certificate
